@@ -56,6 +56,11 @@ func c09FaultKind(r c09Result) string {
 	case "V":
 		return ""
 	case "C", "P":
+		// the catch-all of trace.go wraps a Go panic in a plain `error` condition: a condition of any
+		// other class (type-error, parse-error …) was raised on purpose, whatever text it quotes
+		if r.Status == "C" && r.Class != "error" {
+			return ""
+		}
 		for _, s := range c09RuntimeSigs {
 			if s.re.MatchString(r.Text) {
 				return s.kind
